@@ -432,6 +432,9 @@ fn reference_replay(wal_dir: &Path) -> RefGraph {
         }
     }
     let mut g = RefGraph::default();
+    // property values logged for an edge id that has no edge (yet): the store's property
+    // columns are keyed by id and keep them, an edge created under that id later shows them
+    let mut edge_orphans: BTreeMap<u64, BTreeMap<String, SV>> = BTreeMap::new();
     for r in committed {
         match r {
             WalRecord::CreateNode { id, labels } => {
@@ -446,7 +449,12 @@ fn reference_replay(wal_dir: &Path) -> RefGraph {
                 g.nodes.remove(&id.as_u64());
             }
             WalRecord::CreateEdge { id, src, dst, edge_type } => {
-                let props = g.edges.remove(&id.as_u64()).map(|e| e.props).unwrap_or_default();
+                let mut props = g.edges.remove(&id.as_u64()).map(|e| e.props).unwrap_or_default();
+                if let Some(o) = edge_orphans.remove(&id.as_u64()) {
+                    for (k, v) in o {
+                        props.entry(k).or_insert(v);
+                    }
+                }
                 g.edges.insert(id.as_u64(), MEdge { src: src.as_u64(), dst: dst.as_u64(), ty: edge_type, props });
             }
             WalRecord::DeleteEdge { id } => {
@@ -463,11 +471,14 @@ fn reference_replay(wal_dir: &Path) -> RefGraph {
                     }
                 }
             }
-            WalRecord::SetEdgeProperty { id, key, value } => {
-                if let Some(e) = g.edges.get_mut(&id.as_u64()) {
+            WalRecord::SetEdgeProperty { id, key, value } => match g.edges.get_mut(&id.as_u64()) {
+                Some(e) => {
                     e.props.insert(key, SV::from_value(&value));
                 }
-            }
+                None => {
+                    edge_orphans.entry(id.as_u64()).or_default().insert(key, SV::from_value(&value));
+                }
+            },
             WalRecord::AddNodeLabel { id, label } => {
                 if let Some(n) = g.nodes.get_mut(&id.as_u64()) {
                     n.labels.insert(label);
@@ -560,6 +571,10 @@ struct World {
     cur_got: Option<RefGraph>,
     /// (file, bit) positions flipped so far in this run
     flipped_bits: BTreeSet<(String, usize)>,
+    /// Sticky: a bit was flipped in a log file that is not the newest one. Listed root cause:
+    /// recovery goes on with the later files, so their records are applied without the
+    /// records they build on (which may only show at a later reopen).
+    older_file_flipped: bool,
 }
 
 impl World {
@@ -591,6 +606,11 @@ impl World {
         } else if self.pending_at_open && about_loss {
             (
                 format!("{} | after-uncommitted-records-in-log | discarded-records-resurrected-by-next-commit-marker | recovery-faithful-to-log", self.prop),
+                format!("[{sig}] {detail}"),
+            )
+        } else if self.older_file_flipped && about_loss && !sig.contains("| bitflip-in-older-log-file |") {
+            (
+                format!("{} | after-bitflip-in-older-log-file | records-of-later-files-applied-without-their-predecessors | recovery-faithful-to-log", self.prop),
                 format!("[{sig}] {detail}"),
             )
         } else if about_loss {
@@ -989,6 +1009,7 @@ pub fn exec(cfg: &Config, ops: &[Op], run_tag: &str) -> ExecResult {
         cur_faithful: None,
         cur_got: None,
         flipped_bits: BTreeSet::new(),
+        older_file_flipped: false,
     };
     let mut probe_rng = Prng::new(cfg.probe_seed);
     let mut steps_done = 0usize;
@@ -1105,7 +1126,11 @@ pub fn exec(cfg: &Config, ops: &[Op], run_tag: &str) -> ExecResult {
                             let r = db.remove_node_property(NodeId::new(id), key);
                             let want = w.model.nodes[&id].props.contains_key(key);
                             if r != want {
-                                let want_asis = w.model_logged.nodes.get(&id).is_some_and(|n| n.props.contains_key(key));
+                                // as-is: what the log-only view holds for this id - including stray
+                                // values for an id whose node creation was never logged (they are
+                                // adopted by whatever node gets that id)
+                                let want_asis = w.model_logged.nodes.get(&id).is_some_and(|n| n.props.contains_key(key))
+                                    || w.model_logged.orphans.get(&id).is_some_and(|o| o.contains_key(key));
                                 if r == want_asis && !w.unlogged_seen.is_empty() {
                                     return Err("as-is:unlogged".to_string());
                                 }
@@ -1354,6 +1379,9 @@ pub fn exec(cfg: &Config, ops: &[Op], run_tag: &str) -> ExecResult {
                     if !logs.is_empty() {
                         let fi = *file_pick as usize % logs.len();
                         flipped_not_last = fi + 1 < logs.len();
+                        if flipped_not_last {
+                            w.older_file_flipped = true;
+                        }
                         let f = &logs[fi];
                         let mut bytes = std::fs::read(f).unwrap();
                         // a bit that this run has flipped already is not flipped back: that would
